@@ -352,6 +352,11 @@ def layout(spec):
                 per[cfgno].append((sid, esc(body), False))
     for cfgno in per:
         forced = (spec.get('order') or {}).get(cfgno)
+        if isinstance(forced, (list, tuple)):
+            # the file is written in exactly this order of ids
+            per[cfgno].sort(key=lambda e: list(forced).index(e[0]))
+            per[cfgno] += tails.get(cfgno, [])
+            continue
         if forced:
             per[cfgno].sort(key=lambda e: natural_key(e[0]), reverse=(forced == 'reverse'))
             if forced == 'stale-first':
@@ -798,6 +803,24 @@ def tie_specs():
             for sh in (1, 2, 3, 7, 8):
                 out.append(dict(cfgs=[cfg_line(1, 'snaps')], nfiles=1, tests=tests, stale=[(1, b'TestGone - 1', b'stale')] if sh % 2 else [],
                                 count=1, shuffle=sh, stale_files=[], decoys=False, mode=mode, sort=srt, flags=set()))
+    return out
+
+
+def perm_specs():
+    """EVERY arrangement of three live entries and one stale entry in a file (24 orders), the stale id sorting
+    before, between or after the live ones, with pruning and sorting in the same pass, sorting alone and pruning
+    alone: a single inversion among the survivors must be seen whatever stands between them (an entry that
+    is pruned in the same pass must not take part in the "is it sorted already" decision)."""
+    import itertools
+    out = []
+    live = [b'TestBravo', b'TestDelta', b'TestFoxtrot']
+    for stale in (b'TestAlpha - 1', b'TestCharlie - 1', b'TestGolf - 1'):
+        ids = [n + b' - 1' for n in live] + [stale]
+        for order in itertools.permutations(ids):
+            for mode, srt in (((False, 'clean'), '1'), ((False, ''), '1'), ((False, 'true'), '-')):
+                out.append(dict(cfgs=[cfg_line(1, 'snaps')], nfiles=1, tests=[(n, [(1, b'value of ' + n)]) for n in live],
+                                stale=[(1, stale, b'stale body')], count=1, shuffle=1, stale_files=[], decoys=False,
+                                mode=mode, sort=srt, flags=set(), order={1: list(order)}))
     return out
 
 
